@@ -10,7 +10,7 @@ for s in $list; do
   d=seeded/$s; id=${s%-*}
   if [ -n "$(git -C /repo status --porcelain)" ]; then echo "/repo is not clean"; exit 2; fi
   git -C /repo apply /verif/$d/patch.diff || { echo "$s: patch failed"; continue; }
-  VERIF_SEED=${VERIF_SEED:-1} ./check $id quick > .work/matrix.out 2>&1; rc=$?
+  VERIF_EVIDENCE_DIR=/verif/.work/matrix_evidence VERIF_SEED=${VERIF_SEED:-1} ./check $id quick > .work/matrix.out 2>&1; rc=$?
   subs=$(grep '^VIOLATION' .work/matrix.out | sed 's#.*/\([^/]*\)--.*#\1#' | sort -u | tr '\n' ',' | sed 's/,$//')
   [ $rc -eq 2 ] && subs="$subs INCONCLUSIVE:$(grep '^INCONCLUSIVE' .work/matrix.out | head -1)"
   grep -v "^$s	" $out > $out.tmp; mv $out.tmp $out
